@@ -3,7 +3,7 @@
 sections of the per-topic reports in reports/*_REPORT.md (written by the people who built the extensions)."""
 import os, re
 HERE = os.path.dirname(os.path.dirname(os.path.abspath(__file__)))
-TOPICS = [("graph", "C01_graph"), ("life", "C09_life"), ("cfw", "C02_cfw"), ("links", "C04_links"), ("plan", "C04_plan"), ("engine", "C03_engine"), ("steps", "C06_steps"), ("gen_cfw", "C02_gen"), ("gen2", "C09_gen2 / C01_gen2")]
+TOPICS = [("graph", "C01_graph"), ("life", "C09_life"), ("cfw", "C02_cfw"), ("links", "C04_links"), ("plan", "C04_plan"), ("engine", "C03_engine"), ("steps", "C06_steps"), ("gen_cfw", "C02_gen"), ("gen2", "C09_gen2 / C01_gen2"), ("gen3", "C04_gen2 / C04_gen3 / C15_gen2")]
 out = []
 for t, title in TOPICS:
     p = os.path.join(HERE, "reports", f"{t}_REPORT.md")
